@@ -191,6 +191,10 @@ def build():
                            _table("RULE ORDER", None, [("n", "number")], "string", levels)))
     parts.append(_decision("Least", "_least", _req_inputs(["n", "k"]),
                            _table("COLLECT", "MIN", [("n", "number"), ("k", "number")], "number", _collect_rules()), "number"))
+    # recursion 60..150 invocations deep through a function kept in a context entry (every invocation pushes its own frame; anything that
+    # counts or caches invocations per process instead of per evaluation shows when many threads are inside their recursions together)
+    parts.append(_decision("Recur", "_recur", _req_inputs(["k", "n"]),
+                           _literal('{f: function(x, acc) if x > 0 then f(x - 1, acc + x * n) else acc, r: f(60 + k * 10, 0)}.r')))
     # --- nested requirements: Top -> Mid -> BKM Calc -> decision service Svc -> Leaf -> Base ---------------
     parts.append(_decision("Base", "_base", _req_inputs(["n", "k"]), _literal("n * 2 + k"), "number"))
     parts.append(_decision("Leaf", "_leaf", _req_decisions(["_base"]) + _req_inputs(["m"]),
@@ -230,15 +234,16 @@ CLASSES = {
     "temporal": ["Temporal", "ManyZones"],
     "regex": ["Regex", "Flags", "Priority"],
     "typed": ["Allowed"],
+    "recursion": ["Recur"],
     "table": ["Grid", "Collect", "Priority", "Ranked", "Ordered", "Listed", "Least"],
     "nested": ["Top", "Mid", "Outer", "Svc", "Leaf", "Calc", "Band"],
 }
-INVOCABLES = ["Numeric", "Powers", "Rounding", "Temporal", "ManyZones", "Allowed", "Regex", "Flags", "Grid", "Collect", "Priority", "Ranked", "Ordered", "Listed", "Least", "Base", "Leaf", "Svc", "Calc", "Band",
+INVOCABLES = ["Numeric", "Powers", "Rounding", "Temporal", "ManyZones", "Allowed", "Regex", "Flags", "Grid", "Collect", "Priority", "Ranked", "Ordered", "Listed", "Least", "Recur", "Base", "Leaf", "Svc", "Calc", "Band",
               "Mid", "Top", "Outer"]
 
 
 def class_of(name):
-    for c in ("nested", "numeric", "temporal", "regex", "table", "typed"):
+    for c in ("nested", "numeric", "temporal", "regex", "table", "typed", "recursion"):
         if name in CLASSES[c]:
             return c
     return "other"
